@@ -58,9 +58,9 @@ func txCases() []txCase {
 			}
 			for _, stmts := range stmtSets {
 				for _, onErr := range []string{"return", "ignore"} {
-					for _, final := range []string{"nil", "err", "panic"} {
+					for _, final := range []string{"nil", "err", "panic", "panic-runtime", "panic-error", "panic-nil-error"} {
 						panicPos := []int{0}
-						if final == "panic" {
+						if strings.HasPrefix(final, "panic") {
 							panicPos = nil
 							for i := 0; i <= len(stmts); i++ {
 								panicPos = append(panicPos, i)
@@ -140,9 +140,9 @@ func TestVerifTransact(t *testing.T) {
 				hc.end(context.Canceled)
 			}
 			for i := range k.stmts {
-				if k.final == "panic" && k.panicAt == i {
+				if strings.HasPrefix(k.final, "panic") && k.panicAt == i {
 					bodyOutcome = "panic"
-					panic("body panic")
+					txPanic(k.final)
 				}
 				if _, err := s.Exec("upd"); err != nil && k.onStmtErr == "return" {
 					bodyOutcome = "stmterr"
@@ -150,9 +150,9 @@ func TestVerifTransact(t *testing.T) {
 				}
 			}
 			switch k.final {
-			case "panic":
+			case "panic", "panic-runtime", "panic-error", "panic-nil-error":
 				bodyOutcome = "panic"
-				panic("body panic")
+				txPanic(k.final)
 			case "err":
 				bodyOutcome = "err"
 				return errBody
@@ -224,4 +224,22 @@ func TestVerifTransact(t *testing.T) {
 		}
 	}
 	c.Done()
+}
+
+// txPanic panics the way the body outcome says: with a string, with a value raised by the Go
+// runtime (a write to a nil map), or with an error value.
+func txPanic(kind string) {
+	switch kind {
+	case "panic-runtime":
+		var m map[string]int
+		m["x"] = 1
+	case "panic-error":
+		panic(errors.New("body panic (error value)"))
+	case "panic-nil-error":
+		// re-raising an error variable that happens to be nil: still a panic of the body (with
+		// the module's go 1.19 semantics recover() reports it as nil)
+		var e error
+		panic(e)
+	}
+	panic("body panic")
 }
